@@ -72,6 +72,26 @@ def fault_worlds(tier, seed):
                     out.append(v)
     return out
 
+def partial_write_worlds(tier, seed, stream="partial"):
+    """a disk that fills up: every data write of small worlds stores only some of its bytes and then fails"""
+    import copy
+    nworlds = 8 if tier == "quick" else 80
+    out = []
+    for i in range(nworlds):
+        rng = Rng(seed, stream, i)
+        w = W.gen_fault_world(rng) if i % 2 else W.gen_small_world(rng)
+        w.threads = 1
+        base = W.execute(w)
+        for k, op in enumerate(base.ops):
+            if op[1] != "write" or op[4] != "ok":
+                continue
+            ln = 0 if op[3][1] == "-" else len(op[3][1]) // 2
+            for j in sorted(set([1, max(1, ln // 2)])):
+                if j < ln or ln == 1:
+                    v = copy.copy(w); v.partial = (k, min(j, ln)); v.tag = "partial-write@%d,%d" % (k, j)
+                    out.append(v)
+    return out
+
 def crash_worlds(tier, seed):
     """C11: every prefix of the mutating operations (a write cut after 0, 1, mid bytes), then a clean re-run"""
     import copy
@@ -191,7 +211,8 @@ PROPS = {
                 unit_stream=lambda t, s: unit.load_stream("quick", s)[: 3000 if t == "quick" else 8000]),
     "C04": dict(module="TB.Props.C04", theorems=["C04_export_first", "C04_skip", "C04b_untouched"], clauses=["c04-"], worlds=lambda t, s: worlds_default(t, s, "c04", 300, 6000, tweak_threads)),
     "C12": dict(module="TB.Props.C12", theorems=["C12_path", "C12_only_run", "C12_len", "C12_disjoint"], clauses=["c12-"],
-                worlds=lambda t, s: [W.gen_world_dup_path(Rng(s, "c12-dup", 0))] + worlds_default(t, s, "c12", 300, 6000, tweak_threads)),
+                worlds=lambda t, s: [W.gen_world_dup_path(Rng(s, "c12-dup", 0))] + worlds_default(t, s, "c12", 300, 6000, tweak_threads)
+                                    + partial_write_worlds(t, s, "c12-partial")),
     "C14": dict(module="TB.Props.C14", theorems=["C14_abort", "C14_pass2_ops", "C14_noflag"], clauses=["c14-"],
                 worlds=lambda t, s: [W.gen_world_c14(Rng(s, "c14", i)) for i in range(400 if t == "quick" else 8000)]),
     "C15": dict(module="TB.Props.C15", theorems=["C15_sum", "C15_run", "C15_dedup"], clauses=["c15-"], worlds=lambda t, s: worlds_default(t, s, "c15", 300, 6000, tweak_threads),
@@ -199,7 +220,7 @@ PROPS = {
     "C16": dict(module="TB.Props.C16", theorems=["C16_empty", "C16_validate", "C16_piece_total_partial"], clauses=["c16-", "c03-", "c12-"],
                 worlds=lambda t, s: [W.gen_world_c16(Rng(s, "c16", i), i) for i in range(400 if t == "quick" else 8000)],
                 runner=lambda ws: run_with_cli(ws, 66 if len(ws) <= 1000 else 660), with_bin=True),
-    "C13": dict(module="TB.Props.C13", theorems=["C13_all_accounted", "C13_local", "C13_found_all_ok"], clauses=["c13-", "c01-", "c16-"], worlds=fault_worlds),
+    "C13": dict(module="TB.Props.C13", theorems=["C13_all_accounted", "C13_local", "C13_found_all_ok"], clauses=["c13-", "c01-", "c16-"], worlds=lambda t, s: fault_worlds(t, s) + partial_write_worlds(t, s, "c13-partial")),
     "C11": dict(module="TB.Props.C11", theorems=["C11_replay", "C11_prefix_sound"], clauses=["c11-", "c02-", "c01-"], worlds=crash_worlds, runner=run_crash_cases),
     "C17": dict(module="TB.Props.C17", theorems=["C17_dedup_perm"], clauses=["c17-", "c01-", "c02-", "c03-", "c04-", "c12-"], worlds=meta_worlds, post=compare_groups),
 }
